@@ -97,7 +97,9 @@ class WebServer(Service, discriminator="web-server"):
             response = self._handle_get_request(payload=payload)
 
         elif payload.request_method == HttpRequestMethod.POST:
-            pass
+            # POST is not implemented: a response without a status code is not a valid response (describe_state and the
+            # browser read `status_code.value`), so it is refused like every other unsupported method
+            response.status_code = HttpStatusCode.METHOD_NOT_ALLOWED
 
         else:
             # send a method not allowed response
